@@ -22,15 +22,25 @@ def run(chk, scratch):
         raise vlib.Inconclusive("sensitivity self-test failed: the deviating model reaches %s" % sorted(sigs))
     if "fetch-installed-unstored-version" in sigs:
         raise vlib.Inconclusive("the protocol model admits a Fetch installing something never stored - the model is wrong")
+    re_ = vlib.run_tlc(scratch, [SPEC], "SharedCache", "SharedCache_earlyunlock.cfg", workers=4, timeout=600, fast=True, parse_behaviours=False)
+    vlib.tlc_must_pass(re_, "SharedCache_earlyunlock")
+    chk.add_tlc("SharedCache with the lock given back before a failed Store cleans up (must violate NoViolation)", re_)
+    if re_.violated != "NoViolation":
+        raise vlib.Inconclusive("sensitivity self-test failed: SharedCache_earlyunlock.cfg reported %s" % re_.violated)
     chk.sample({"model_counterexample": " ".join(e["c"] + "." + e["a"] for e in min(r.behaviours, key=lambda b: len(b["sched"]))["sched"])})
     # 2. crash-point / fault sweep over every backend call of a real Store, both cache kinds, both backends
     sw, _ = common.record(vh, scratch, "c16", "sweep.ndjson", chk.seed, chk.tier, mode="sweep", timeout=3000)
     # 3. concurrent clients under gated random schedules
     il, _ = common.record(vh, scratch, "c16", "interleave.ndjson", chk.seed, chk.tier, mode="interleave", n=(400 if thorough else 40), timeout=3000)
+    # 4. hand-over sweep (lock-based cache): Store(v2) fails at backend call k; what it still does after giving the lock back is held until
+    #    another client's complete Store(v3) is over: the later critical section's version must be what a Fetch returns
+    ho, _ = common.record(vh, scratch, "c16", "handoff.ndjson", chk.seed, chk.tier, mode="handoff", timeout=3000)
     trace = os.path.join(scratch, "c16-trace.ndjson")
     with open(trace, "w") as out:
         out.write(open(sw).read())
-        out.write(open(il).read())
+        out.write("".join(line for line in open(il) if '"op":"End"' not in line))     # one End closes the whole trace
+        out.write(open(ho).read())
+    chk.cov["hand_over_scenarios"] = sum(1 for line in open(ho) if '"op":"Begin"' in line)
     total = sum(1 for line in open(trace) if line.strip())
     r = vlib.run_tlc(scratch, [SPEC], "SharedCacheTrace", "SharedCacheTrace.cfg", workers=1, timeout=1800, deadlock=False,
                      extra_files=[(trace, "trace.ndjson")], fast=True)
@@ -52,14 +62,17 @@ def run(chk, scratch):
         chk.traces += 1
         chk.nontrivial += 1
         for s in v["viol"]:
-            if v["id"] >= 100000:
+            if 100000 <= v["id"] < 200000:
                 ctx = [events[v["id"] - 100001]]
             else:
                 ctx = [e for e in events if e.get("id") == v["id"] and e.get("op") != "Sweep"]
             what = ""
-            if v["id"] >= 100000:
+            if 100000 <= v["id"] < 200000:
                 e = ctx[0]
                 what = " (%s cache, %s backend, %s at call %d/%d: %s)" % (e["cache"], e["backend"], e["mode"], e["k"], e["of"], e["faultOp"])
+            if v["id"] >= 200000:
+                what = " (hand-over: Store(v2) failing at backend call %s on the %s backend, then a complete Store(v3) by another client: %s)" % (
+                    ctx[0].get("seq"), ctx[0].get("backend"), [(e["op"], e.get("c"), e.get("v"), e.get("result"), e.get("match")) for e in ctx[1:]])
             chk.violation(s, "trace %d%s" % (v["id"], what), {"events": ctx})
     chk.cov["void_scenarios_backend_breakdown"] = void
     chk.cov["trace_events_validated"] = total
